@@ -8,6 +8,9 @@ void vx_native_fail(const char* msg); void vx_native_assume_violated(void);
 #define __CPROVER_assume(c) do { if (!(c)) vx_native_assume_violated(); } while (0)
 #define __CPROVER_input(...) do { } while (0)
 #define __CPROVER_isnand(x) ((x) != (x))
+#define __CPROVER_isinfd(x) __builtin_isinf(x)
+#define __CPROVER_r_ok(p, n) ((p) != 0)      /* natively an invalid access is caught by the sanitizer of the C++ side; the generated C only needs the null test */
+#define __CPROVER_w_ok(p, n) ((p) != 0)
 #define __CPROVER_overflow_plus(a, b) __extension__({ __typeof__(a) _r; __builtin_add_overflow((a), (b), &_r); })
 #define __CPROVER_overflow_minus(a, b) __extension__({ __typeof__(a) _r; __builtin_sub_overflow((a), (b), &_r); })
 #define __CPROVER_overflow_mult(a, b) __extension__({ __typeof__(a) _r; __builtin_mul_overflow((a), (b), &_r); })
